@@ -352,7 +352,44 @@ class FnTr:
                             args = ex[2] if ex is not None and ex[0] == 'adt' and ex[1] == en else tuple(T_UNKNOWN for _ in self.c.enums[en].params)
                         return "%s_%s" % (en, n), ('adt', en, args)
                 self.err("no variant `%s` in enum %s" % (n, en), e)
+            # a function used as a value (fn pointer): plain functions only
+            if en in self.c.structs or en in self.c.enums:
+                cands = [fi for (tn, nr, mn), lst in self.c.methods.items() if tn == en and mn == n for fi in lst]
+                if len(cands) == 1:
+                    return self.fn_value(cands[0], e)
+        if len(segs) == 1 and n in self.c.free_fns:
+            return self.fn_value(self.c.free_fns[n], e)
         self.err("cannot resolve path `%s`" % '::'.join(segs), e)
+
+    def fn_value(self, fi, node):
+        if fi.self_kind is not None or fi.bounds or not fi.args:
+            self.err("only non-generic functions without receiver can be used as values", node)
+        self.fi.deps.add(fi.coq)
+        return fi.coq, ('fnptr', tuple(t for _, t in fi.args), fi.ret)
+
+    def e_index(self, e, expected):
+        a, t = self.expr(e.e)
+        base, _ = strip_ref(t)
+        if base[0] != 'array':
+            self.err("indexing something that is not an array", e)
+        i, ti = self.expr(e.idx, ('int', 64))
+        if strip_ref(ti)[0][0] not in ('int', 'intlit'):
+            self.err("array index is not an integer", e)
+        v = self.emit_val("call (arr_index %s %s)" % (a, i))
+        return v, base[1]
+
+    def e_array(self, e, expected):
+        ex = strip_ref(expected)[0] if expected is not None else None
+        et = ex[1] if ex is not None and ex[0] == 'array' else None
+        atoms = []
+        for x in e.elems:
+            a, t = self.expr(x, et)
+            if et is None or et[0] in ('unknown', 'intlit'):
+                et = t
+            atoms.append(a)
+        if et is None or et[0] == 'intlit':
+            self.err("cannot infer the element type of an array expression", e)
+        return "[%s]" % '; '.join(atoms), ('array', et, len(atoms))
 
     def opt_arg(self, expected):
         if expected is not None:
@@ -626,7 +663,20 @@ class FnTr:
         segs = f.segs
         n = segs[-1]
         if len(segs) == 1 and self.scope.lookup(n) is not None:
-            self.err("calling a local value is not supported", e)
+            fa, ft = self.scope.lookup(n)
+            fb, _ = strip_ref(ft)
+            if fb[0] != 'fnptr':
+                self.err("calling a local value that is not a fn pointer", e)
+            if len(e.args) != len(fb[1]):
+                self.err("wrong number of arguments in call through a fn pointer", e)
+            atoms = []
+            for ae, aty in zip(e.args, fb[1]):
+                a, t = self.expr(ae, aty)
+                atoms.append(a)
+            v = self.emit_val("call (%s %s)" % (fa, ' '.join(atoms)))
+            if fb[2] == T_NEVER:
+                self.scope.diverged = True
+            return v, fb[2]
         if n in ('Some', 'Ok', 'Err') and len(e.args) == 1 and (len(segs) == 1 or segs[-2] in ('Option', 'Result')):
             ex = strip_ref(expected)[0] if expected is not None else None
             if n == 'Some':
@@ -925,7 +975,50 @@ class FnTr:
                 v = self.bind_local(p.segs[0], t)
                 self.emit(v, "cret %s" % a)
             return
-        self.err("destructuring `let` is not supported", st)
+        if p.kind in ('ptuple', 'pstruct'):
+            # irrefutable destructuring: name the value, then bind each component by projection
+            if not is_simple(a):
+                v = self.fresh('d')
+                self.emit(v, "cret %s" % a)
+                a = v
+            self.bind_irrefutable(p, a, t, st)
+            return
+        self.err("destructuring `let` with this pattern is not supported", st)
+
+    def bind_irrefutable(self, p, atom, ty, node):
+        base, nrefs = strip_ref(ty)
+
+        def wrap(t):
+            return ('ref', t) if nrefs and t[0] != 'ref' else t
+        if p.kind == 'pwild':
+            return
+        if p.kind == 'ppath' and len(p.segs) == 1 and not self.is_const_name(p.segs[0]) and (p.segs[0][0].islower() or p.segs[0][0] == '_'):
+            if is_simple(atom):
+                self.bind_local(p.segs[0], wrap(base), atom)
+            else:
+                v = self.bind_local(p.segs[0], wrap(base))
+                self.emit(v, "cret %s" % atom)
+            return
+        if p.kind == 'ptuple':
+            if base[0] != 'tuple' or len(base[1]) != len(p.elems):
+                self.err("tuple pattern against a non-tuple", node)
+            n = len(p.elems)
+            for i, (x, t) in enumerate(zip(p.elems, base[1])):
+                self.bind_irrefutable(x, tuple_proj(atom, i, n), wrap(t), node)
+            return
+        if p.kind == 'pstruct':
+            n = p.segs[-1]
+            if n == 'Self' and self.fi.self_ty is not None:
+                n = strip_ref(self.fi.self_ty)[0][1]
+            if n not in self.c.structs or base[0] != 'adt' or base[1] != n:
+                self.err("struct pattern does not match the value's type", node)
+            fl = dict(self.struct_fields(base, node))
+            for f, sub in p.fields:
+                if f not in fl:
+                    self.err("no field `%s`" % f, node)
+                self.bind_irrefutable(sub, "(%s_%s %s)" % (n, f, atom), wrap(fl[f]), node)
+            return
+        self.err("destructuring `let` with a refutable or unsupported pattern", node)
 
     def is_const_name(self, n):
         return n in self.c.consts or (n in self.c.structs and self.c.structs[n].unit)
@@ -1002,13 +1095,13 @@ class FnTr:
             self.err("match on an untyped literal", e)
         if tb[0] in ('int', 'char'):
             return self.match_int(e, s, tb, expected)
+        if any(arm.guard is not None for arm in e.arms):
+            return self.match_guarded(e, s, ts, expected)
         arms = []
         t = T_NEVER
         mods = False
         carry = self.carried(*[arm.body for arm in e.arms])
         for arm in e.arms:
-            if arm.guard is not None:
-                self.err("match guards on non-integer scrutinees are not supported", arm)
 
             def go(arm=arm):
                 pat = self.pat(arm.pat, ts)
@@ -1031,6 +1124,59 @@ class FnTr:
         sc = Scope()
         sc.mods = mods
         return self.use_m(sc, ('match', s, arms), t)
+
+    def irrefutable(self, p):
+        k = p.kind
+        if k == 'pwild':
+            return True
+        if k == 'ppath':
+            n = p.segs[-1]
+            if len(p.segs) == 1 and not self.is_const_name(n) and (n[0].islower() or n[0] == '_'):
+                return True
+            return n in self.c.structs and self.c.structs[n].unit
+        if k == 'ptuple':
+            return all(self.irrefutable(x) for x in p.elems)
+        if k == 'pstruct':
+            return p.segs[-1] in self.c.structs and all(self.irrefutable(x) for _, x in p.fields)
+        return False
+
+    def match_guarded(self, e, s, ts, expected):
+        """Guards on a structured scrutinee: the arms are tried one after the other, as Rust does.
+             M_i = match s with pat_i => if guard_i then body_i else M_(i+1) | _ => M_(i+1) end
+           and after the last guarded arm one ordinary match over all the unguarded arms (which rustc has
+           checked to be exhaustive on their own).  The scrutinee is evaluated once and named."""
+        if sum(1 for a in e.arms if a.guard is not None and not self.irrefutable(a.pat)) > 6:
+            self.err("too many guarded arms in one match", e)
+        if not is_simple(s):
+            v = self.fresh('m')
+            self.emit(v, "cret %s" % s)
+            s = v
+        self.gensym = getattr(self, 'gensym', 0) + 1
+        name = 'scrut__%d' % self.gensym
+        self.bind_local(name, ts, s)
+        sp = Node('path', e.line, segs=[name])
+        unguarded = [a for a in e.arms if a.guard is None]
+        last_guarded = max(i for i, a in enumerate(e.arms) if a.guard is not None)
+
+        def wild(body):
+            return Node('arm', e.line, pat=Node('pwild', e.line), guard=None, body=body)
+
+        def build(i):
+            if i > last_guarded:
+                if not unguarded:
+                    self.err("match with guards on every arm", e)
+                return Node('match', e.line, scrut=sp, arms=unguarded)
+            a = e.arms[i]
+            if a.guard is None:
+                if self.irrefutable(a.pat):
+                    return Node('match', e.line, scrut=sp, arms=[a])
+                return Node('match', e.line, scrut=sp, arms=[a, wild(build(i + 1))])
+            body = Node('if', a.line, cond=a.guard, then=self.as_block(a.body), els=self.as_block(build(i + 1)))
+            arm = Node('arm', a.line, pat=a.pat, guard=None, body=body)
+            if self.irrefutable(a.pat):
+                return Node('match', e.line, scrut=sp, arms=[arm])
+            return Node('match', e.line, scrut=sp, arms=[arm, wild(build(i + 1))])
+        return self.e_match(build(0), expected)
 
     def int_pat_cond(self, p, s, ty):
         """Boolean Coq term: scrutinee atom s matches integer pattern p; or None for irrefutable.
